@@ -8,6 +8,11 @@
 
 mod batch;
 mod common;
+mod loopcheck;
+mod loopgen;
+mod loopparse;
+mod looprun;
+mod paint;
 mod pool;
 
 use std::{path::Path, time::Duration};
@@ -127,11 +132,72 @@ fn check_pool(prop: Prop, tier: Tier, seed: u64) -> i32 {
     finish(prop, tier, seed, res, meta)
 }
 
+const REAL_LOOP: &[&str] = &[
+    "divan::benchmark::BenchContext::bench_loop_threaded / bench_loop_local / sample_recorder (all three loop paths)",
+    "divan::benchmark::defer::DeferStore",
+    "all six Bencher entry points, Bencher::counter / input_counter",
+    "BenchContext::compute_stats, SampleCollection, CounterCollection",
+    "TreePainter::finish_leaf (stdout captured at fd level)",
+    "divan::util::thread::pool::ThreadPool",
+    "AllocProfiler<MockAlloc> + ThreadAllocInfo (thread-local tallies, clear, snapshot)",
+    "TscTimestamp::duration_since, FineDuration arithmetic, From<Duration>, Timer::measure_precision, TimedOverhead::total_overhead",
+    "std unwinding, thread-locals, thread::panicking",
+];
+const STUB_LOOP: &[&str] = &[
+    "std::sync::{Barrier, Mutex, mpsc, atomics}, thread park/unpark/spawn — dsim models",
+    "the TSC instruction — dsim virtual counter (hook H5)",
+    "the wrapped allocator — MockAlloc (fabricated pointers, never dereferenced)",
+    "measurement of benchmarking overheads — simulator-provided constants (hook H6)",
+    "Timer::Os — not exercised",
+];
+
+fn check_loop(prop: Prop, tier: Tier, seed: u64) -> i32 {
+    let (runs, wall): (u64, u64) = match (prop, tier) {
+        (Prop::C03, Tier::Quick) => (20_000, 120),
+        (Prop::C19, Tier::Quick) => (12_000, 120),
+        (_, Tier::Quick) => (30_000, 120),
+        (_, Tier::Thorough) => (600_000, 900),
+    };
+    let runs = std::env::var("VERIF_RUNS").ok().and_then(|s| s.parse().ok()).unwrap_or(runs);
+    let cfg = BatchCfg {
+        prop,
+        tier,
+        seed,
+        runs,
+        wall: Duration::from_secs(wall),
+        workers: common::workers(),
+        salt: 0,
+    };
+    let known = known_for::<looprun::LoopScn>(prop);
+    let res = batch::run_batch::<looprun::LoopScn>(&cfg, &known);
+    let meta = EvidenceMeta {
+        prop,
+        tier,
+        seed,
+        level: "exploration",
+        rule: "one run = (Bencher entry point, input/output shape, sample size | tuned, sample count, threads, bench|test, time limits, counters, cost script, allocation script, virtual-clock configuration, fault plan) x one seeded schedule; non-trivial = >= 2 simulated threads and >= 1 decision with >= 2 enabled threads, or >= 1 fired fault, or >= 2 stored samples; distinct = unseen (scenario shape, fired fault kinds, per-object operation-order signature, multiset shape of the stored durations, outcome class)",
+        assumptions: vec![
+            "the loop is driven through BenchOptions directly (where attribute, group, builder, CLI and environment converge); option resolution itself is C15 (not applicable)".into(),
+            "thread index i of a parallel benchmark runs on simulated thread i (fresh pool per run; C06 decides the pool)".into(),
+            "interleavings are sequentially consistent; preemption only at shim operations, clock reads and workload events".into(),
+            "instruction-level reordering around the timestamp reads is not modelled".into(),
+            "sampling, not enumeration".into(),
+        ],
+        components_real: REAL_LOOP.to_vec(),
+        components_stub: STUB_LOOP.to_vec(),
+        extra: json!({}),
+    };
+    finish(prop, tier, seed, res, meta)
+}
+
 fn cmd_check(prop: Prop, tier: Tier) -> i32 {
     let seed = common::verif_seed();
     println!("VERIF_SEED={seed} property={prop} tier={}", tier.name());
     match prop {
         Prop::C06 | Prop::C07 => check_pool(prop, tier, seed),
+        Prop::C01 | Prop::C02 | Prop::C03 | Prop::C04 | Prop::C05 | Prop::C08 | Prop::C11 | Prop::C19 => {
+            check_loop(prop, tier, seed)
+        }
         _ => {
             eprintln!("property {prop} has no check yet");
             2
@@ -154,6 +220,7 @@ fn cmd_replay(path: &Path) -> i32 {
     let kind = v["scenario"]["kind"].as_str().unwrap_or("");
     let out = match kind {
         "pool" => batch::replay_case::<pool::PoolScn>(prop, &v),
+        "loop" => batch::replay_case::<looprun::LoopScn>(prop, &v),
         other => Err(format!("unknown scenario kind {other:?}")),
     };
     match out {
